@@ -31,6 +31,7 @@ func init() {
 		Rule{ID: "R20b", Doc: "the forwarded question is not recycled under the refresh goroutine (shared with C20)", Floor: 20, Run: r20b},
 		Rule{ID: "R20e", Doc: "a decoded name has one owner (a double release lets two in-flight questions share one buffer; shared with C20)", Floor: 1, AllVariants: true, Run: r20e},
 		Rule{ID: "R10f", Doc: "lookup methods of the shared domain/ip structures are read-only on the request path", Floor: 5, Run: r10f},
+		Rule{ID: "R10g", Doc: "name normalisation folds ASCII letters only, in place, without library helpers", Floor: 1, AllVariants: true, Run: r10g},
 	)
 	reg("C17", "Structural necessary conditions of `peers are reached and authenticated as configured`, decided for all paths: "+
 		"(R17a) every field of TlsConfig and UpstreamConfig is read and reaches its effect (InsecureSkipVerify, RootCAs, Certificates, ClientAuth+ClientCAs for verify_client_cert; dial_addr, addr, tls, socket, tag); "+
@@ -47,6 +48,7 @@ func init() {
 		Rule{ID: "R17f", Doc: "default ports and dial plumbing", Floor: 12, AllVariants: true, Run: r17f},
 		Rule{ID: "R17g", Doc: "options are wired from the same-named configuration fields (module-wide)", Floor: 5, Run: rWiring()},
 		Rule{ID: "R17h", Doc: "a configured CA replaces the trust store", Floor: 1, Run: r17h},
+		Rule{ID: "R17i", Doc: "host and port are separated by net.SplitHostPort only (no manual colon search)", Floor: 2, AllVariants: true, Run: r17i},
 	)
 }
 
